@@ -47,11 +47,11 @@ CHECKS = {
         text="Theorems (Coq, EVERY call history, no length bound): the Rule builder refines an independent specification automaton that sees only call kinds; "
              "a verdict (pass or AssertionError) is produced only for histories that supply subject, verb, import type and object/'anything', without should_not+other verb "
              "and without 'anything'+should/should_only (C13_rule_history); unknown module names and non-matching regexes are errors for all 12 shapes (C13_unknown_name, C13_no_match); "
-             "LayerRule histories yield a verdict only with an architecture, one subject layer and a complete lowered rule; undefined layers are rejected at the call. "
-             "Tie to /repo: exhaustive call sequences (<=4 quick, <=5 thorough, 14 symbols) + random longer + every single mutation of 11 complete chains on the real Rule / LayerRule; "
+             "LayerRule histories yield a verdict only with an architecture, one subject layer and a complete lowered rule; undefined layers are rejected at the call; DiagramRule histories yield a verdict only if a file was given and the parser accepted it (C13_diagram_history), a text without end tag is rejected (C13_diagram_no_end_tag); "
+             "the entry point's option guard is exactly the three documented exclusions (C13_options). Tie to /repo: exhaustive call sequences (<=4 quick, <=5 thorough, 14 symbols) + random longer + every single mutation of 11 complete chains on the real Rule / LayerRule; "
              "oracle on the real code: history rejected by the Python twin of the automaton => neither PASS nor AssertionError; model outcomes compared as well; "
              "unknown names on random (level-limited) architectures; all 48 entry-point option combinations; DiagramRule without file / tags.",
-        note="Entry-point option validation and DiagramRule incompleteness are checked on the implementation only (finite enumeration); their Coq model is part of the scan/diagram stage. "
+        note="Entry-point option validation, module_path outside root_path and DiagramRule incompleteness are tied to /repo by finite enumeration on the implementation against the documented rejections (their Coq statements are C13_options / C13_diagram_*; the model is not in the loop for these two). "
              "Trusted: Coq kernel, extraction, driver, harness (incl. the Python twin automaton, cross-checked against the Coq one on every history).",
         technique="Coq refinement proof (builder state machine vs specification automaton) + exhaustive history correspondence",
         design="5/C13"),
